@@ -594,3 +594,65 @@ def _(v):
         k = p["A_outer"] * sym_exp(-(p["E_inner"] * 2) / p["temperature"])
         v.prove("rhs_in_the_free_symbols", SP.conj([v.eq(o.exprs[0], -k * y["A"]), v.eq(o.exprs[1], k * y["A"])]))
         v.prove("registered_values", SP.conj([x["unique"]["A_outer"] == A0, x["unique"]["E_inner"] == E]))
+
+
+@harness("C04", "name_clashes_are_refused", functions=[ODE + ":_create_odesys", ODE + ":get_odesys"], kind="data")
+def _(v):
+    """'dependent-variable and parameter names matching substance keys and parameter keys': a system whose named rate constant has the name of a
+    substance (or of the time variable) cannot be represented -- one symbol would stand for both -- and is refused by both builders, never
+    answered with a right-hand side in which the constant IS the concentration (-A**2 for 'A -> B; k named A')"""
+    from chempy.chemistry import Substance
+    from chempy.reactionsystem import ReactionSystem
+    from chempy.kinetics.ode import _create_odesys, get_odesys
+    answered = []
+    for text in ("A -> B; 'A'", "A -> B; 'B'", "A -> B; 'k1'\nB -> C; 'A'"):
+        rs = ReactionSystem.from_string(text, substance_factory=Substance)
+        for label, build in (("_create_odesys", lambda: _create_odesys(rs)), ("get_odesys", lambda: get_odesys(rs, include_params=False))):
+            try:
+                o, _e = build()
+                answered.append((text, label, str(o.exprs)))
+            except ValueError:
+                pass
+            except Exception as ex:
+                answered.append((text, label, repr(ex)[:80]))
+    v.prove("constant_named_like_a_substance", not answered, detail=repr(answered[:3]))
+    rs = ReactionSystem.from_string("A -> B; 't'", substance_factory=Substance)
+    try:
+        o, _e = _create_odesys(rs)
+        ok, det = False, str(o.exprs)
+    except ValueError:
+        ok, det = True, ""
+    v.prove("constant_named_like_the_time_variable", ok, detail=det)
+    rs = ReactionSystem.from_string("A -> B; 'k'\nB -> C; 'k2'", substance_factory=Substance)
+    o, _e = _create_odesys(rs)
+    v.prove("distinct_names_are_accepted", list(o.names) == ["A", "B", "C"] and list(o.param_names) == ["k", "k2"])
+
+
+@harness("C04", "unique_keys_behind_plain_arguments", functions=[ODE + ":get_odesys", ODE + ":get_odesys.<locals>._reg_unique"], kind="data")
+def _(v):
+    """'keeping rate constants as free parameters … changes only which symbols are free': every unique key of every nested rate expression is
+    registered, wherever it sits in the argument list -- also behind plain numbers (the bounds of a piecewise expression come before its pieces).
+    With include_params=False all four keys are parameters, their defaults are reported, and binding them gives the kinetic model's value"""
+    from chempy.chemistry import Reaction
+    from chempy.reactionsystem import ReactionSystem
+    from chempy.kinetics.ode import get_odesys
+    from chempy.kinetics.rates import MassAction
+    from chempy.util._expr import create_Piecewise, create_Poly
+    TPoly, TPiecewise = create_Poly("temperature"), create_Piecewise("temperature")
+    low, high = TPoly([1.0, 0.01], unique_keys=("a0", "a1")), TPoly([2.0, 0.02], unique_keys=("b0", "b1"))
+    rsys = ReactionSystem([Reaction({"A": 1}, {"B": 1}, MassAction(TPiecewise([0, low, 300, high, 1000])))], "A B")
+    try:
+        odesys, extra = get_odesys(rsys, include_params=False)
+        names = list(odesys.param_names)
+        v.prove("all_nested_keys_are_parameters", set(names) == {"temperature", "a0", "a1", "b0", "b1"} and dict(extra["unique"]) == dict(a0=1.0, a1=0.01, b0=2.0, b1=0.02),
+                detail="%r %r" % (names, dict(extra["unique"])))
+        bound = dict(a0=3.0, a1=0.03, b0=5.0, b1=0.05)
+        bad = []
+        for T, k in ((350.0, 5.0 + 0.05 * 350.0), (200.0, 3.0 + 0.03 * 200.0)):
+            p = dict(bound, temperature=T)
+            f = [float(x) for x in odesys.f_cb(0.0, [2.0, 0.0], [p[n] for n in names])]
+            if not all(abs(x - y) <= 1e-12 * abs(y) for x, y in zip(f, [-k * 2.0, k * 2.0])):
+                bad.append((T, f))
+        v.prove("bound_keys_give_the_model_value", not bad, detail=repr(bad))
+    except Exception as ex:
+        v.prove("all_nested_keys_are_parameters", False, detail=repr(ex)[:300])
